@@ -130,7 +130,12 @@ func e2eCase(r *rng.R, dir string) []string {
 			}
 		}
 		if len(ls) > 0 {
-			labelArgs = []string{"-label", writeFile(dir, "e2e.labels", []byte(lf.String()))}
+			text := lf.String()
+			if r.Bool() {
+				// the last line of a label file need not end with a line feed
+				text = strings.TrimSuffix(text, "\n")
+			}
+			labelArgs = []string{"-label", writeFile(dir, "e2e.labels", []byte(text))}
 			labReq = strings.Join(ls, ";")
 		}
 	}
